@@ -524,6 +524,24 @@ func c10Records(w *World, r *Report) {
 				if sCallee(x) == phObj {
 					wi.ViaPrep = true
 				}
+				// chunk size handed to a splitting helper: cut(data, N)
+				if sc := x.Call.StaticCallee(); sc != nil && inModule(sc) && sCallee(x) != phObj {
+					for i, a := range x.Call.Args {
+						if v, ok := constIntVal(a); ok && v > 0 && i < len(sc.Params) {
+							if bt, ok := sc.Params[i].Type().Underlying().(*types.Basic); ok && bt.Info()&types.IsInteger != 0 {
+								wi.Chunk = v
+							}
+						}
+					}
+					// record type built by a helper
+					allInstrs(sc, func(in2 ssa.Instruction) {
+						if al, ok := in2.(*ssa.Alloc); ok {
+							if name := rrTypeName(al.Type()); name != "" && implementsIface(al.Type(), rrIface) && name != "RR_Header" {
+								wi.RRType = name
+							}
+						}
+					})
+				}
 			case *ssa.Store:
 				if fa, ok := x.Addr.(*ssa.FieldAddr); ok {
 					if fv := fieldVarOf(fa); fv != nil && (fv.Name() == "Target" || fv.Name() == "Mx") && fv.Pkg() != nil && fv.Pkg().Path() == "github.com/miekg/dns" {
